@@ -146,6 +146,13 @@ def run(ctx):
                 if e.kind == 'store' and e.data.get('target') == 'attr' and e.data.get('name') == 'frames' and \
                         e.data['base'].key == sym('self').key:
                     adds.append((e, e.data['value']))
+            # (an addition delegated to the same primitive of the base class is an addition site too: the base method's own guard
+            #  obligation covers it)
+            for e in I.events:
+                rs_ = e.data.get('resolved') if e.kind == 'call' else None
+                if rs_ is not None and getattr(rs_, 'cls', None) is not None and rs_.cls in (cad, oc) and rs_ is not m and \
+                        rs_.name in ('insert', 'append', 'extend', '__setitem__') and rs_.name == name:
+                    n_mut += 1
             for e, v in adds:
                 n_mut += 1
                 gparam = guard.params()[1]
@@ -230,6 +237,26 @@ def run(ctx):
            'leaves no label behind)', si, bool(st_ev) and bool(lab_ev) and all(st_ev[0].seq < l.seq for l in lab_ev),
            {'store': [e.text() for e in st_ev], 'labelling': [e.text() for e in lab_ev]},
            node=(lab_ev[0].node if lab_ev else si.node), construct='add_metadata after self.frames[i] = v')
+    # ordered insert: list.insert never fails, the label lookup self.order[i] can (a cadence longer than its order string) -- it
+    # comes BEFORE the frame is put into the list, so that a refused insertion leaves the cadence untouched
+    ins = ctx.func(OC + 'insert')
+    ri, Ii = ctx.run(ins, expand=False, max_depth=0, no_inline=NO_INLINE)
+    order_key = T.mk_attr(sym('self'), 'order').key
+
+    def _reads_order(e):
+        vals = [e.data.get('value')] if e.kind == 'store' else (list(e.data.get('args', [])) + [v_ for _, v_ in e.data.get('kwargs', [])]
+                                                                  if e.kind == 'call' else [])
+        return any(v_ is not None and any(a.kind == 'sub' and a.args[0].key == order_key for a in T.all_atoms(v_).values())
+                   for v_ in vals)
+    look = [e for e in Ii.events if _reads_order(e)]
+    put = [e for e in Ii.events if e.kind == 'call' and (
+        (e.data.get('method') and e.data['name'] in ('.insert', '.append') and ast.unparse(e.data.get('recv_node')) == 'self.frames')
+        or (e.data.get('resolved') is not None and getattr(e.data['resolved'], 'cls', None) is cad
+            and e.data['resolved'].name in ('insert', 'append', '__setitem__')))]
+    ctx.ob('ORDER', 'ordered insert: the order label is looked up before the frame is put into the list (a position without a label '
+           'leaves the cadence untouched)', ins, (all(l.seq < put[0].seq for l in look) if (look and put) else None),
+           {'lookups': [e.text()[:70] for e in look], 'insertion': [e.text()[:70] for e in put]},
+           node=(put[0].node if put else ins.node), construct='self.order[i] before self.frames.insert')
     # the order string says which label a NOT-YET-LABELLED frame gets; a frame that carries its label needs none, so storing it
     # must not depend on the order string at all (a cadence may be longer than its order string: a list accepts the frame)
     for short in (OC + '__setitem__', OC + 'insert'):
